@@ -86,7 +86,7 @@ func sliceHelper(g *ssa.Function) (nParam int, conds []nilCond, ok bool) {
 		diff := polyOf(forwardLoad(sl.High), nil).add(lo, -1)
 		found := false
 		for i, p := range g.Params {
-			if diff.eq(pAtom(p.Name())) {
+			if diff.eq(pAtom(paramKey(p))) {
 				if nParam >= 0 && nParam != i {
 					good = false
 				}
